@@ -83,6 +83,13 @@ def handle (op : String) (a : List String) : Option String :=
       let adj := adjOf conflictSpec regs
       let lens := regs.map (·.len)
       some s!"proper={proper adj lvs} grundy={grundy adj lvs} score={scoreSpec lens lvs} opt={optimumParts conflictSpec regs}"
+  | "ss.check_levels_noopt", [seq, ps, lv] => do
+      -- C16 spec: proper and greedy-stable (the exact optimum is not needed there and is exponential in the group size)
+      let es ← parseEntries seq ps; let lvs ← parseNatList lv
+      let regs := regions es
+      let adj := adjOf conflictSpec regs
+      let lens := regs.map (·.len)
+      some s!"proper={proper adj lvs} grundy={grundy adj lvs} score={scoreSpec lens lvs}"
   | "ss.milp", [seq, ps] => (parseEntries seq ps).map (fun es =>
       match milp Gen.conflictConvert (regions es) with
       | none => "none"
